@@ -235,11 +235,15 @@ def run(ctx):
                 except Exception: pass
             hp2 = hostile_pickle(); npk = 0
             # (wot / wowp: no bundled controller unpickles anything, so there EVERY byte-carrying argument and property - BLOB as well as PYTHON - gets the pickle)
-            carry = ('python', 'blob') if game in ('wot', 'wowp') else ('python',)
+            carry = ('python', 'blob', 'string') if game in ('wot', 'wowp') else ('python',)
+            hp0 = b'ctools.c18_marker\nmark\n(I7\ntR.'        # the same pickle in protocol 0: plain ASCII, so it survives a STRING argument (decoded as text, encoded back)
+            kint = [0]
             def has_py(t): return t[0] in carry or (t[0] == 'user' and has_py(t[1])) or (t[0] == 'array' and has_py(t[1])) or (t[0] == 'dict' and any(has_py(ft) for _, ft in t[1]))
             def fill(t):
                 if t[0] == 'python': return ('b', hp2)
                 if t[0] == 'blob' and 'blob' in carry: return ('s', hp2)
+                if t[0] == 'string' and 'string' in carry: return ('s', hp0)
+                if t[0] in 'ui' and 'string' in carry: return kint[0] % (2 ** (8 * t[1] - 1))          # (selector arguments: every small value is tried)
                 if t[0] == 'user': return fill(t[1])
                 if t[0] == 'array': return [fill(t[1])] * (t[2] if t[2] is not None else 1)
                 if t[0] == 'dict': return {n: fill(ft) for n, ft in t[1]}
@@ -255,8 +259,10 @@ def run(ctx):
                         b.pkt('EntityProperty', struct.pack('<II', eid, i) + battle.synth.binstream(gen_types.wire_of(pt, fill(pt)))); npk += 1
                 for i, m in enumerate(ent['methods']):
                     if any(has_py(at) for an, at in m['args']) and ename == 'Avatar':
-                        body = b''.join(gen_types.wire_of(at, fill(at), max(m['hdr'], 0)) for an, at in m['args'])
-                        b.pkt('EntityMethod', struct.pack('<II', A, i) + battle.synth.binstream(body)); npk += 1
+                        for k_ in (range(0, 14) if 'string' in carry and any(at[0] in 'ui' for an, at in m['args']) else (0,)):
+                            kint[0] = k_
+                            body = b''.join(gen_types.wire_of(at, fill(at), max(m['hdr'], 0)) for an, at in m['args'])
+                            b.pkt('EntityMethod', struct.pack('<II', A, i) + battle.synth.binstream(body)); npk += 1
             if not npk: continue
             vs_ = {'wot': 'World\xa0of\xa0Tanks v.%s.0 #77' % v.replace('_', '.'), 'wowp': 'World of Warplanes %s.5' % v.replace('_', '.'), 'wows': ','.join(v.split('_')[:3] + ['1'])}[game]
             p = os.path.join(tmp, 'pyvals.' + ext); battle.write_replay(p, ext, {('clientVersion' if game == 'wowp' else 'clientVersionFromXml'): vs_}, b.stream())
